@@ -213,7 +213,7 @@ def judge(prop, mod, tier, seed, outs, wall, replay=False):
         'maxima': maxes,
         'shards': len(outs),
         'known_findings_seen': {k: d['count'] for k, d in known_seen.items()},
-        'violation_signatures': [v['sig'] for v in unknown][:50],
+        'violation_signatures': [v['sig'] for v in unknown][:400],
         'inconclusive': inconclusive[:10],
     }
     cov.update(extra)
